@@ -53,7 +53,7 @@ def conflict(c1, c2):
 
 
 def build(r, name, derives, n=None, styles=True, allow_default=True, allow_disabled=True, allow_aci=True,
-          allow_prefix=False, fieldless=False, generics_pool=(None, None, None, "T", "a", "aT", "N", "Tw"),
+          allow_prefix=False, fieldless=False, generics_pool=(None, None, None, "T", "a", "aT", "N", "Tw", "Tnd", "NT"),
           distinct_lengths=False, uni=True, naming_bias=0.6, max_n=9, capture_types=None, allow_default_with=True,
           forced_style="__unset__", dup_within_variant=True, allow_braces=False, allow_disabled_default=False, avoid_snake_collisions=False, raw_bare=False):
     """Random string enum inside the domain of C01 (non-overlapping spellings)."""
@@ -129,13 +129,13 @@ def build(r, name, derives, n=None, styles=True, allow_default=True, allow_disab
                 v.fields = [Field(ty=r.choice(capture_types or CAPTURE_TYPES))]
             elif allow_default_with and not fieldless and v.kind == "tuple" and len(v.fields) == 1 and r.random() < 0.3:
                 f = v.fields[0]
-                if f.ty not in ("T", "U", "RefStr", "CG"):
+                if f.ty not in ("T", "U", "RefStr", "CG", "OptT", "VecT"):
                     dw_counter[0] += 1
                     v.default_with = "dw_%s_%d" % (name.lower(), dw_counter[0])
                     v.dw_expr = TYPES[f.ty][2][0]
             elif allow_default_with and v.kind == "named" and v.fields and r.random() < 0.3:
                 for f in v.fields:
-                    if f.ty not in ("T", "U", "RefStr", "CG") and r.random() < 0.6:
+                    if f.ty not in ("T", "U", "RefStr", "CG", "OptT", "VecT") and r.random() < 0.6:
                         dw_counter[0] += 1
                         f.default_with = "dw_%s_%d" % (name.lower(), dw_counter[0])
                         f.dw_expr = TYPES[f.ty][2][0]
